@@ -108,12 +108,16 @@ type Client struct {
 	Cache  map[string]*CRes
 	Ivs    []*Interval
 	// rids on which the client got an unsubscribe event / delete, for exemptions
-	Revoked map[string]int
-	Origin  string
-	Header  http.Header
-	ConnectStep int
-	CloseStep   int
+	Revoked       map[string]int
+	Origin        string
+	Header        http.Header
+	ConnectStep   int
+	CloseStep     int
 	UpgradeStatus int
+	// Tainted is set when the connection ran into known finding F-3 (an
+	// unsubscribe accepted on a provisional count): from then on the frame-driven
+	// model and the gateway legitimately disagree about this connection.
+	Tainted string
 }
 
 func (s *Sim) newClient() *Client {
@@ -485,6 +489,9 @@ func (c *Client) gc() {
 
 // checkRefs is C02.a: no dangling non-soft reference among held resources.
 func (c *Client) checkRefs(f *Frame) {
+	if c.Tainted != "" {
+		return
+	}
 	for _, rid := range sortedKeys(c.Cache) {
 		for _, x := range refsOf(c.Cache[rid]) {
 			if c.Cache[x] == nil {
@@ -631,6 +638,9 @@ func (c *Client) onEvent(f *Frame) {
 			c.Ivs = append(c.Ivs, h.iv)
 		}
 		c.checkRefs(f)
+		return
+	}
+	if c.Tainted != "" && (held == nil || held.Kind == 'e' || held.Deleted) {
 		return
 	}
 	if held == nil || held.Kind == 'e' {
